@@ -18,6 +18,10 @@ pub struct Case {
     /// take crash forks inside these statement indexes
     pub fork_in: Vec<usize>,
     pub purge: bool,
+    /// statement indexes before which the host activates another Schema Lock
+    /// (alternating between an empty lock and the full one)
+    #[serde(default)]
+    pub schema_flips: Vec<usize>,
 }
 
 pub fn generate(case_seed: u64, _idx: u64, tier: Tier) -> Case {
@@ -34,6 +38,16 @@ pub fn generate(case_seed: u64, _idx: u64, tier: Tier) -> Case {
         },
         fork_in: (0..2).map(|_| rng.usize(n)).collect(),
         purge: rng.chance(1, 4),
+        schema_flips: if rng.chance(1, 3) {
+            let at = rng.range(2, n as u64 - 1) as usize;
+            let mut v = vec![at];
+            if rng.chance(2, 3) {
+                v.push(at + rng.range(1, 3) as usize);
+            }
+            v
+        } else {
+            vec![]
+        },
     }
 }
 
@@ -130,7 +144,44 @@ pub fn execute(case: &Case, rep: &mut RunReport) -> Result<(), Violation> {
     let mut crng = Rng::stream(case.seed, "checks");
     let mut forks_to_check: Vec<(simcore::store::Fork, Vec<u64>)> = Vec::new();
     let mut last_seq = 0u64;
+    let mut empty_lock_active = false;
+    let mut purged_any = false;
     for i in 0..case.n {
+        if case.schema_flips.contains(&i) {
+            // a schema activation is a committed point of the history like any
+            // other: names resolve differently after it, never before it
+            let lock = if empty_lock_active { full_lock() } else { anda_cognitive_nexus::schema::SchemaLock::default() };
+            block(nexus.activate_schema(anda_cognitive_nexus::nexus::DEFAULT_SPACE, lock)).map_err(|e| violation!("c18.harness", "schema activation failed: {e:?}"))?;
+            empty_lock_active = !empty_lock_active;
+            let snap = block(exec(&session, "SNAPSHOT", false));
+            let s = snap.result["snapshot_seq"].as_u64().or_else(|| snap.result["space_seq"].as_u64()).ok_or_else(|| violation!("c18.harness", "SNAPSHOT does not report the sequence: {:?}", snap.raw))?;
+            if s <= last_seq {
+                return Err(violation!("c18.harness", "schema activation did not produce a new coordinate (sequence {s}, last {last_seq})"));
+            }
+            last_seq = s;
+            let live = block(answers(&session, ""));
+            let now_as_of = block(answers(&session, &format!("AS OF SEQ {s}")));
+            if let Some(d) = first_diff(&live, &now_as_of) {
+                return Err(violation!("c18.present-vs-asof", "after a schema activation (sequence {s}): the live answer differs from AS OF SEQ {s} taken immediately: {d}"));
+            }
+            recorded.insert(s, live);
+            let h = block(exec(&session, "HISTORY SPACE", false));
+            let mut listed = false;
+            if let Some(rows) = h.result.as_array() {
+                for r in rows {
+                    if let (Some(sq), Some(t)) = (r["space_seq"].as_u64(), r["committed_at"].as_str()) {
+                        commit_ms.insert(sq, t.to_string());
+                        listed |= sq == s;
+                    }
+                }
+            }
+            if !listed {
+                return Err(violation!("c18.harness", "HISTORY SPACE does not list the schema activation at sequence {s}: {:?}", h.result));
+            }
+            rep.probe("schema_activations_in_history", 1);
+            let keys: Vec<u64> = recorded.keys().copied().collect();
+            check_replays(&session, &recorded, &keys, &format!("after the schema activation at sequence {s}"), rep)?;
+        }
         let mut st: Stmt = sgen::generate(&mut grng, &reg);
         st.dry_run = false;
         if case.purge && i == case.n / 2 && !reg.concepts.is_empty() {
@@ -166,7 +217,8 @@ pub fn execute(case: &Case, rep: &mut RunReport) -> Result<(), Violation> {
             if let Some(rows) = o.result.as_array() {
                 reg.concepts = rows.iter().filter_map(|r| r.as_str().map(|s| s.to_string())).collect();
             }
-            if st.family == "purge" {
+            if st.text.contains("PURGE ") {
+                purged_any = true;
                 // a purge is the one thing allowed to change the past: re-baseline
                 rep.probe("purges_committed", 1);
                 let keys: Vec<u64> = recorded.keys().copied().collect();
@@ -253,11 +305,13 @@ pub fn execute(case: &Case, rep: &mut RunReport) -> Result<(), Violation> {
         for (s, t) in commit_ms.iter().take(4) {
             let suffix = format!("AS OF TIME \"{t}\"");
             let got = block(answers(&session, &suffix));
-            let base = &recorded[&0];
-            if got.iter().zip(base.iter()).any(|((_, a), (_, b))| a.starts_with("ERROR:") && !b.starts_with("ERROR:") && !a.contains("HistoricalSnapshotUnavailable")) {
-                return Err(violation!("c18.as-of-time-error", "{suffix} (commit time of sequence {s}) failed: {:?}", got.iter().find(|(_, a)| a.starts_with("ERROR:"))));
+            // an error is an answer like any other when it was the answer at some
+            // coordinate (e.g. a type name under a Schema Lock that lacks it)
+            let unexplained = got.iter().enumerate().find(|(qi, (_, a))| a.starts_with("ERROR:") && !a.contains("HistoricalSnapshotUnavailable") && !recorded.values().any(|r| r[*qi].1 == *a));
+            if let Some((_, e)) = unexplained {
+                return Err(violation!("c18.as-of-time-error", "{suffix} (commit time of sequence {s}) failed: {e:?}"));
             }
-            if !got.iter().any(|(_, a)| a.starts_with("ERROR:")) && !recorded.values().any(|r| first_diff(r, &got).is_none() || first_diff_ignoring_snapshot(r, &got)) {
+            if !got.iter().any(|(_, a)| a.contains("HistoricalSnapshotUnavailable")) && !recorded.values().any(|r| first_diff(r, &got).is_none() || first_diff_ignoring_snapshot(r, &got)) {
                 return Err(violation!("c18.as-of-time-never-existed", "{suffix} returns a state that was never current at any coordinate"));
             }
             rep.probe("as_of_time_membership_checked", 1);
@@ -297,7 +351,7 @@ pub fn execute(case: &Case, rep: &mut RunReport) -> Result<(), Violation> {
         let nx2 = block(open_nexus(&st2)).map_err(|e| violation!("c18.reopen-failed", "{ctx}: nexus failed to reopen: {e}"))?;
         let s2 = nx2.system_session();
         // purge re-baselining makes earlier records moot when the fork predates it; use the records as they were
-        if !case.purge {
+        if !purged_any {
             check_replays(&s2, &recorded, &coords, &ctx, rep)?;
         }
         rep.fire("power_loss", 1);
